@@ -135,43 +135,81 @@ def rule_sort(ctx):
 
 
 def rule_fixpoint(ctx):
+    """FIXPOINT, by one symbolic iteration and a shift argument.  The statements before the loop give the initial state S0 (terms over `self`);
+    the loop body is evaluated once on S0.  (i) Every way out of the loop (break / return) is taken only when X == X.apply(f) holds for
+    X = self, and yields X or X.apply(f).  (ii) The state after the iteration is S0 with `self` replaced by `self.apply(f)`.  By (ii) the k-th
+    iteration is the first one with self := apply^k(self), so by (i) every result r satisfies r == r.apply(f).  The shape of the loop
+    (while / loop + return, one or two state variables) does not matter."""
+    from .. import leaves
     fx = ctx.facts
     b = fx.fn("Apply::apply_fixpoint")
     site = ctx.site(b)
     body = b["body"]
-    lets = hq.lets(body)
-    prev = lets.get("previous", [None])[0]
-    cur = lets.get("current", [None])[0]
-    if prev is None or cur is None:
-        # locate by role: two mutable locals, one initialised from self
-        raise AnalysisGap("apply_fixpoint: locals not found")
-    pid, cid = prev["pat"]["id"], cur["pat"]["id"]
-
-    def is_apply_of_prev(e):
-        e = strip(e)
-        return e.get("k") == "MethodCall" and e["method"] == "apply" and local_id_of(hq.method_chain(e["recv"])[0]) == pid and \
-            [c["method"] for c in hq.method_chain(e["recv"])[1]] in (["clone"], [])
-
-    ctx.add("FIXPOINT", "init", hq.local_of(prev["init"]) == "self" and is_apply_of_prev(cur["init"]), site, "previous = self; current = previous.clone().apply(f)")
-    loops = [n for n in walk(body) if n.get("k") == "Loop"]
-    ok = len(loops) == 1 and loops[0].get("src") == "While"
-    cond = None
-    if ok:
-        ifs = [n for n in walk(loops[0]) if n.get("k") == "If"]
-        cond = strip(ifs[0]["cond"]) if ifs else None
-        ok = cond is not None and cond.get("k") == "Binary" and cond.get("op") == "Ne" and {local_id_of(cond["l"]), local_id_of(cond["r"])} == {pid, cid}
-        then = ifs[0]["then"] if ifs else None
-        asg = [n for n in walk(then)] if then else []
-        a = [n for n in asg if n.get("k") == "Assign"]
-        ok = ok and len(a) == 2 and local_id_of(a[0]["l"]) == pid and local_id_of(a[0]["r"]) == cid and local_id_of(a[1]["l"]) == cid and is_apply_of_prev(a[1]["r"])
-        # the only exit is the failing loop condition
-        brk = [n for n in walk(loops[0]) if n.get("k") in ("Break", "Ret")]
-        ok = ok and len(brk) == 1
-    ctx.add("FIXPOINT", "loop", ok, site, "while previous != current { previous = current; current = previous.clone().apply(f) } with no other exit")
+    stmts = body.get("stmts", [])
+    li = [i_ for i_, st in enumerate(stmts) if st.get("k") != "LetStmt" and isinstance(st.get("e"), dict) and strip(st["e"]).get("k") == "Loop"]
     tail = body.get("expr")
-    ctx.add("FIXPOINT", "result", tail is not None and local_id_of(tail) == cid, site, "the returned value is `current`, i.e. a tree equal to its own image under one more pass")
-    eq = [i for i in fx.impls if i["self_ty"] == "syntax_tree::fol::sigma_0::Formula" and i.get("trait", "").endswith("cmp::PartialEq") and i["from_expansion"]]
-    ctx.add("FIXPOINT", "structural-equality", len(eq) == 1, "src/syntax_tree/fol/sigma_0.rs", "Formula equality is the derived structural equality")
+    loop = None
+    if len(li) == 1:
+        loop = strip(stmts[li[0]]["e"])
+        pre, post = stmts[:li[0]], stmts[li[0] + 1:]
+    elif not li and tail is not None and strip(tail).get("k") == "Loop":
+        loop = strip(tail)
+        pre, post, tail = stmts, [], None
+    if loop is None or [n for n in walk(body) if n.get("k") == "Loop"] != [loop]:
+        ctx.bad("FIXPOINT", "loop", site, "apply_fixpoint is not one loop over whole passes `x -> x.apply(f)` at the top level of its body (loops found: %d)" % len([n for n in walk(body) if n.get("k") == "Loop"]))
+        return
+    ev = sym.Eval(fx, inline_depth=0)
+    env = {}
+    for p_ in b["params"]:
+        ev.bind_pat(p_, None, env, default_param=True)
+    ev._prefix = [()]
+    for st in pre:
+        ev.stmt(st, env, 0)
+    SELF, F_ = ("param", "self"), ("param", "f")
+    A = lambda x: ("call", "Apply::apply", (x, F_))
+    carried = sorted(set(ev.mutated_locals(loop)) & set(env))
+    s0 = {i_: env[i_] for i_ in carried}
+    ev.breaks = []
+    ev.returns = []
+    e1 = dict(env)
+    ev.effect({"k": "Block", **loop["body"]} if "k" not in loop["body"] else loop["body"], e1, 0)
+    exits = []
+    for conds, val in ev.returns:
+        exits.append((conds, val))
+    for conds, benv in ev.breaks:
+        ev2 = sym.Eval(fx, inline_depth=0)
+        ev2.names = dict(ev.names)
+        be = dict(benv)
+        for st in post:
+            ev2.stmt(st, be, 0)
+        exits.append((conds, ev2.expr(tail, be, 0) if tail is not None else ("unit",)))
+    eq = ("cond", ("bin", "Eq") + tuple(sorted((SELF, A(SELF)), key=repr)), True)
+    ok_exit = bool(exits)
+    detail = []
+    for conds, val in exits:
+        ts = []
+        for c, pol in conds:
+            ts += leaves.cond_tests(c, pol) or [("dead",)]
+        val = leaves.norm(leaves.strip_acc(val))
+        detail.append((list(map(str, ts)), sym.pretty(val)[:80]))
+        if eq not in ts or val not in (SELF, A(SELF)):
+            ok_exit = False
+    ctx.add("FIXPOINT", "loop", ok_exit, site, "every way out of the loop is taken only when x == x.apply(f) and yields x or x.apply(f) (first iteration, x = self): %s" % detail)
+    # state after one iteration = initial state shifted by one application
+    shifted = {i_: leaves.replace(leaves.norm(t), {SELF: A(SELF)}) for i_, t in s0.items()}
+    after = {}
+    for i_ in carried:
+        t = e1.get(i_)
+        # the value on the path that stays in the loop: drop the exit paths (the equality holds there)
+        cand = [x for ts, x in leaves.leaves(t) if eq not in ts] if isinstance(t, tuple) else [t]
+        after[i_] = [leaves.norm(leaves.strip_acc(x)) for x in cand]
+    ok_shift = bool(carried) and all(after[i_] == [shifted[i_]] for i_ in carried)
+    ctx.add("FIXPOINT", "init", bool(carried) and all(leaves.norm(t) in (SELF, A(SELF)) for t in s0.values()), site,
+            "the loop state starts from self (and self.apply(f)): %s" % {ev.names.get(i_, i_): sym.pretty(t)[:60] for i_, t in s0.items()})
+    ctx.add("FIXPOINT", "result", ok_shift, site, "one iteration turns the state S(self) into S(self.apply(f)), so iteration k is iteration 0 on apply^k(self): %s" % {
+        ev.names.get(i_, i_): [sym.pretty(x)[:70] for x in after[i_]] for i_ in carried})
+    eq_ = [i for i in fx.impls if i["self_ty"] == "syntax_tree::fol::sigma_0::Formula" and i.get("trait", "").endswith("cmp::PartialEq") and i["from_expansion"]]
+    ctx.add("FIXPOINT", "structural-equality", len(eq_) == 1, "src/syntax_tree/fol/sigma_0.rs", "Formula equality is the derived structural equality")
 
 
 def rule_det3(ctx):
